@@ -13,6 +13,7 @@ import (
 	lsp "github.com/a-h/templ/lsp/protocol"
 	"github.com/a-h/templ/parser/v2"
 	"pgregory.net/rapid"
+	"unicode/utf8"
 
 	"verif/ev"
 	"verif/tgen"
@@ -25,6 +26,9 @@ type ServerCase struct {
 	Ops []Op   `json:"ops"`
 	// Batches: how many of the ops each DidChange notification carries (empty: 1, 2, 1, 2, ...).
 	Batches []int `json:"batches,omitempty"`
+	// Reopen lists notification numbers before which the editor closes the file and opens it
+	// again with the text it shows at that moment (which may not parse: a file closed mid-edit).
+	Reopen []int `json:"reopen,omitempty"`
 }
 
 var recSrv = ev.New("C17", "c17.server",
@@ -51,6 +55,10 @@ func (s *stubTarget) DidChange(ctx context.Context, p *lsp.DidChangeTextDocument
 		s.lastGo = p.ContentChanges[0].Text
 	}
 	s.forwards++
+	return nil
+}
+
+func (s *stubTarget) DidClose(ctx context.Context, p *lsp.DidCloseTextDocumentParams) error {
 	return nil
 }
 
@@ -113,6 +121,23 @@ func decideServer(c ServerCase) (err error) {
 		if i+n > len(c.Ops) {
 			n = len(c.Ops) - i
 		}
+		for _, r := range c.Reopen {
+			if r != b {
+				continue
+			}
+			cp := &lsp.DidCloseTextDocumentParams{}
+			cp.TextDocument.URI = uri
+			if err := srv.DidClose(ctx, cp); err != nil {
+				return fmt.Errorf("DidClose before notification %d: %v", b, err)
+			}
+			if err := srv.DidOpen(ctx, &lsp.DidOpenTextDocumentParams{TextDocument: lsp.TextDocumentItem{URI: uri, Text: model}}); err != nil {
+				return fmt.Errorf("DidOpen (reopen before notification %d): %v", b, err)
+			}
+			if err := check(fmt.Sprintf("after closing and reopening before notification %d", b)); err != nil {
+				return err
+			}
+			break
+		}
 		var changes []lsp.TextDocumentContentChangeEvent
 		for _, op := range c.Ops[i : i+n] {
 			ch := lsp.TextDocumentContentChangeEvent{Text: op.Text}
@@ -171,10 +196,38 @@ func TestPropServer(t *testing.T) {
 	g := tgen.GenFile(o)
 	rapid.Check(t, func(t *rapid.T) {
 		src, _ := tgen.Print(g.Draw(t, "file"), "P")
+		// the file as it is opened may be in the middle of an edit
+		switch rapid.IntRange(0, 7).Draw(t, "openState") {
+		case 0:
+			cut := rapid.IntRange(0, len(src)).Draw(t, "cut")
+			for cut > 0 && cut < len(src) && !utf8.RuneStart(src[cut]) {
+				cut--
+			}
+			src = src[:cut]
+		case 1:
+			if i := strings.LastIndex(src, "}"); i >= 0 {
+				src = src[:i] + "\t<div>\n" + src[i:]
+			}
+		case 2:
+			if i := strings.LastIndex(src, "}"); i >= 0 {
+				src = src[:i] + "\tif {\n" + src[i:]
+			}
+		}
+		if _, ok := expectedGo(src); !ok {
+			recSrv.Class("opened in a state that does not parse")
+		}
 		c := ServerCase{Doc: src}
 		model := src
 		nNotes := rapid.IntRange(1, 8).Draw(t, "notifications")
 		for b := 0; b < nNotes; b++ {
+			if rapid.IntRange(0, 5).Draw(t, "reopen") == 0 {
+				c.Reopen = append(c.Reopen, b)
+				if _, ok := expectedGo(model); !ok {
+					recSrv.Class("closed and reopened in a state that does not parse")
+				} else {
+					recSrv.Class("closed and reopened")
+				}
+			}
 			size := rapid.SampledFrom([]int{1, 1, 2, 2, 3, 4}).Draw(t, "batch")
 			c.Batches = append(c.Batches, size)
 			atStart := model // the document when this notification begins
